@@ -109,8 +109,26 @@ def run(rep):
             okdec = (steps[v] == ("idiv", lvv, ("int", U), "u64") and
                      steps[a] == ("upd_idx", ("lv", dec.uid, a), ("idx", dec.uid), ("irem", lvv, ("int", U), "u64")) and
                      dec.init[v] == ("icast", arg(1), "i64", "u64"))
+    how = "for j in 0..L: d_j = v mod U; v = v div U; v_0 = value as u64 (value >= 0)"
+    if not okdec:
+        # written another way (shift/mask, helper function, ...): decide it by what it must achieve - the digits the
+        # prover commits to recombine to the value: sum_j U^j enc(d_j) == enc(value) (polynomial identity of the honest
+        # constraint against c*enc(value) + commitment scalar, closed by a recognised digit-decomposition lemma)
+        try:
+            from .c10 import range_decomposition_identity
+            node, S4, lem = range_decomposition_identity(prog)
+        except Exception:
+            node, S4, lem = 0, None, []
+        if S4 is not None and any("digit decomposition" in l for l in lem):
+            b4 = S4.alg.bdd
+            lits = b4.as_conjunction(node) if node not in (0, 1) else []
+            if node == 1 or (lits is not None and all((not pol) and a[0] in ("Z", "any") for a, pol in lits)):
+                okdec = True
+                how = "the committed digits recombine to the value: " + "; ".join(lem)
+                for l in lem:
+                    rep.trusted.append("arithmetic lemma: " + l)
     if okdec:
-        rep.ok("decomposition", "digits", sample="for j in 0..L: d_j = v mod U; v = v div U; v_0 = value as u64 (value >= 0)")
+        rep.ok("decomposition", "digits", sample=how)
     else:
         rep.fail("decomposition", "digits", "the digit decomposition loop is not the whole-array (mod U, div U) recurrence starting from the value", site=gcc.loc())
     # ---- prover commitment-scalar recurrence
